@@ -205,7 +205,9 @@ int mantis_ctr_init(MantisCTR_t *ctr)
         ctr->ctx = 0;
         return 0;
     }
-    return 1;
+
+    /* Start from the all-zeroes counter block */
+    return (*(vtable->set_counter))(ctr, 0, 0);
 }
 
 void mantis_ctr_cleanup(MantisCTR_t *ctr)
